@@ -222,6 +222,12 @@ class Ctx:
                 text=True,
                 cwd=self.work,
             )
+            if p.returncode == 124:
+                # ran out of time (loaded machine): one retry with a five times longer limit
+                self.bump("coqc_retried_after_timeout")
+                p = subprocess.run(["timeout", str(5 * timeout)] + cmd, capture_output=True, text=True, cwd=self.work)
+                if p.returncode == 124:
+                    return 124, p.stdout, f"coqc timed out twice ({timeout}s, {5 * timeout}s) on {os.path.basename(path)}"
             return p.returncode, p.stdout, p.stderr
         except Exception as e:  # pragma: no cover
             return 99, "", repr(e)
